@@ -499,7 +499,7 @@ impl<'a> IrEmitter<'a> {
                 let path_ts = join_path_tokens(&path_tokens);
 
                 if let Some(alias_name) = alias {
-                    let alias_ident = format_ident!("{}", alias_name);
+                    let alias_ident = format_ident!("{}", Self::escape_keyword(alias_name));
                     Ok(quote! {
                         use #path_ts as #alias_ident;
                     })
@@ -507,11 +507,12 @@ impl<'a> IrEmitter<'a> {
                     let item_stmts: Vec<TokenStream> = items
                         .iter()
                         .map(|item| {
-                            let name_ident = format_ident!("{}", &item.name);
+                            // imported items and their aliases are names like any other (`from m import box as ref`)
+                            let name_ident = format_ident!("{}", Self::escape_keyword(&item.name));
                             let path_tokens_clone = path_tokens.clone();
                             let path_ts_clone = join_path_tokens(&path_tokens_clone);
                             if let Some(alias) = &item.alias {
-                                let alias_ident = format_ident!("{}", alias);
+                                let alias_ident = format_ident!("{}", Self::escape_keyword(alias));
                                 quote! { use #path_ts_clone :: #name_ident as #alias_ident; }
                             } else {
                                 quote! { use #path_ts_clone :: #name_ident; }
